@@ -13,7 +13,7 @@ META = {
                    "NoProgress arises only from unwrap_or on the taken error; (C10.5) finish: on the Some(timeout) edge process_all() runs inside tokio::time::timeout whose Err maps "
                    "to Timeout and whose Ok(x) is x unchanged; (C10.6) TcpConnecting::connect maps Error(e) to e itself."
                    " Rules are evaluated on expanded units of the async bodies (helpers, closures and awaits of local async fns spliced); C10.8 requires every popped address to become an attempt before anything else happens."
-                   " As built now: process_all is decided by trace equivalence with a reference specification (patable.py: queue and task set as sequences, awaiting join_next* as a nondeterministic step, 20 scenarios up to 45 traces each), join_next by its own decision table (one finished task per call; success -> Ok(value), failure -> Error and remembered iff first, nothing running -> Exhausted), the candidate loop of TcpConnecting::connect by the candidate table (candloop.py: one attempt per address in list order on the only path to the await of the set).",
+                   " As built now: process_all is decided by trace equivalence with a reference specification (patable.py: queue and task set as sequences, awaiting join_next - bare or under tokio::time::timeout, the stagger-wait helper being spliced in - as a nondeterministic step, 28 scenarios up to 45 traces each), join_next by its own decision table (one finished task per call; success -> Ok(value), failure -> Error and remembered iff first, nothing running -> Exhausted), the candidate loop of TcpConnecting::connect by the candidate table (candloop.py: one attempt per address in list order on the only path to the await of the set).",
     "trusted_base": ["rustc type/borrow checker", "futures_util::FuturesUnordered yields completed futures", "tokio::time::timeout"],
     "assumptions": [],
     "undecided": "'succeeds whenever some candidate would accept before the deadline' and ordering by completion time (FuturesUnordered + timers over virtual time)",
